@@ -507,6 +507,9 @@ def _seq_id():
     return "q%05d" % _counter[0]
 
 
+_ORIG_GEN_ID = {}
+
+
 def patch_ids():
     import django_components.component as C
     import django_components.node as N
@@ -514,7 +517,16 @@ def patch_ids():
     import django_components.util.misc as M
     for m in (C, N, P, M):
         if getattr(m, "gen_id", None) is not _seq_id:
+            _ORIG_GEN_ID.setdefault(m.__name__, getattr(m, "gen_id", None))
             m.gen_id = _seq_id
+
+
+def unpatch_ids():
+    """put the library's own id generator back (stream `real-ids` of C14)"""
+    import sys
+    for name, fn in _ORIG_GEN_ID.items():
+        if fn is not None and name in sys.modules:
+            sys.modules[name].gen_id = fn
 
 
 CENSUS = ["component_context_cache", "component_renderer_cache", "child_component_attrs",
